@@ -346,7 +346,7 @@ def random_cases(draw):
     parents = shapes.shape_to_parents(forest.to_tuple(shape))
     size = len(parents)
     sep = draw(st.sampled_from(SEPS))
-    pathattr = draw(st.sampled_from(["name", "name", "id"]))
+    pathattr = draw(st.sampled_from(["name", "name", "id", "file.name"]))  # an attribute NAME may contain dots (imported documents)
     ic = draw(st.booleans())
     names = [draw(st.one_of(name_strategy(sep), name_strategy(sep), st.sampled_from(["...", "....", ".x", "x."]), st.integers(0, 12).map(lambda i: {"int": i}), st.sampled_from(["etc", "a", "caf\u00e9", ""]).map(lambda t: {"bytes": t}), st.tuples(st.sampled_from(["plain", "int", "str", "flag"]), st.integers(0, 2)).map(lambda t: {"enum": list(t)}), name_strategy(sep).map(lambda t: {"tag": t}), st.lists(st.integers(0, 3), max_size=2).map(lambda v: {"tup": v} if sep not in (" ", "-") else {"int": len(v)}))) for _ in range(size)]
     unique = draw(st.integers(0, 9)) < 7
@@ -421,6 +421,21 @@ def _enum_cases(max_nodes, index, count):
                 yield {"shape": forest.to_list(shape), "names": names, "sep": "/", "pathattr": "name", "ignorecase": ic, "roundtrip": start == 0 and dup != "dots", "flip": 5, "paths": paths}
 
 
+def _wide_cases():
+    """Nodes with many children (linear scans and any index a resolver may keep for them) on the long-lived resolvers,
+    with renames and moves between the queries."""
+    for width in (63, 64, 65, 130):
+        for ic in (False, True):
+            for pathattr in ("name", "id"):
+                shape = [[] for _ in range(width)]
+                shape[3] = [[]]
+                names = ["top"] + ["n%d" % i for i in range(width)] + ["leaf"]
+                last = "n%d" % (width - 1)
+                paths = [[0, "n0"], [0, "n3"], [0, last], [0, "N3" if ic else "n3"], [0, "fresh"], [0, "zz"], [4, "../" + last], [0, "/top/n7"], [0, "n3/leaf"], [0, "fresh/leaf"], [0, "moved"], [2, "moved"]]
+                mutations = [["rename", 4, "fresh"], ["rename", 1, last], ["rename", width, "n0"], ["move", 6, 2], ["rename", 6, "moved"]]
+                yield {"shape": shape, "names": names, "sep": "/", "pathattr": pathattr, "ignorecase": ic, "roundtrip": False, "flip": 0, "paths": paths, "mutations": mutations}
+
+
 def _sepname_cases():
     import itertools
 
@@ -452,7 +467,7 @@ def plan(tier, seed):
     tasks = [{"engine": "enum", "max_nodes": max_nodes, "index": i, "count": nshards} for i in range(nshards)]
     tasks += [{"engine": "hyp", "examples": examples, "seed": seed * 1000 + i} for i in range(nshards)]
     tasks += [{"engine": "long", "sep": sep, "ignorecase": ic} for sep, ic in (("/", False), ("::", True))]
-    tasks += [{"engine": "mixed"}, {"engine": "sepnames"}]
+    tasks += [{"engine": "mixed"}, {"engine": "sepnames"}, {"engine": "wide"}]
     if tier == "thorough":
         # coverage-guided supplement: 16 libFuzzer campaigns on the same strategy + oracle (skipped if atheris is unavailable)
         tasks += [{"engine": "fuzz", "runs": 4000, "seed": seed * 100 + i + 1} for i in range(nshards)]
@@ -479,6 +494,8 @@ def run_task(task, acc):
         if exc is not None:
             acc.add_violation(case, exc)
         return
+    if task["engine"] == "wide":
+        return acc.run_enum(check_case, _wide_cases())
     if task["engine"] == "sepnames":
         return acc.run_enum(check_case, _sepname_cases())
     if task["engine"] == "enum":
